@@ -176,6 +176,44 @@ def corruptions(doc):
 ACCEPTED = {"duplicate-container-unchanged"}
 
 
+def nest_inheriting(doc):
+    """doc with one inheriting container X additionally referenced by a ContainerRefEntry of a container Y that is
+    neither X, an ancestor or descendant of X by inheritance, nor nested in / nesting X (so no cycle arises)"""
+    by = {c["name"]: c for c in doc["containers"]}
+
+    def ancestors(n):
+        out = set()
+        while by[n].get("base") and by[n]["base"] in by and by[n]["base"] not in out:
+            n = by[n]["base"]
+            out.add(n)
+        return out
+
+    def nested_closure(n, seen=None):
+        seen = seen if seen is not None else set()
+        for k, m in by[n]["entries"]:
+            if k == "c" and m in by and m not in seen:
+                seen.add(m)
+                nested_closure(m, seen)
+        return seen
+    for x in doc["containers"]:
+        if not x.get("base"):
+            continue
+        for y in doc["containers"]:
+            if y["name"] == x["name"] or y["name"] in ancestors(x["name"]) or x["name"] in ancestors(y["name"]):
+                continue
+            if y["name"] in nested_closure(x["name"]) or x["name"] in nested_closure(y["name"]):
+                continue
+            # x's own ancestors must not (transitively) nest y either
+            if any(y["name"] in nested_closure(a) or a in nested_closure(y["name"]) for a in ancestors(x["name"])):
+                continue
+            d = _copy(doc)
+            for c in d["containers"]:
+                if c["name"] == y["name"]:
+                    c["entries"].append(["c", x["name"]])
+            return d
+    return None
+
+
 def features(doc):
     by = {c["name"]: c for c in doc["containers"]}
     nested = any(k == "c" for c in doc["containers"] for k, _ in c["entries"])
@@ -210,6 +248,21 @@ def check_case(ctx, case):
         if g:
             return ctx.fail("graph", f"uncorrupted document: {g}", case, bucket="graph:" + g.split(":")[0][:30])
     seen_ops = {}
+    if only is None:
+        # a legal variation: an inheriting container additionally nested (by reference) in an unrelated container
+        var = nest_inheriting(doc)
+        if var is not None:
+            ctx.count()
+            ctx.cls("variation: inheriting container nested elsewhere")
+            try:
+                d = load_bytes(xdoc.render(var, opts), opts, doc["root"])
+            except Exception as e:
+                return ctx.fail("load-raised", f"document with an inheriting container nested elsewhere: {e!r} "
+                                               f"[{exc_sig(e)}]", dict(case, doc=var), bucket="load-raised-variation:" + exc_sig(e))
+            g = graph_problems(d, var)
+            if g:
+                return ctx.fail("graph", f"document with an inheriting container nested elsewhere: {g}",
+                                dict(case, doc=var), bucket="graph:variation")
     for op, site, bad in corruptions(doc):
         if only is not None and only != [op, site]:
             continue
